@@ -153,6 +153,90 @@ def collect_keep():
     return keep
 
 
+def collect_calls():
+    """call graph of the fingerprint classes (AST): signatures, `self.<method>(...)` calls with the binding of every
+    argument to the callee's parameter name (positional arguments resolved through the callee's signature, keyword
+    arguments by name), and the parameters each method consumes itself.
+
+    source of an argument:  `p`   the caller's own parameter `p`, passed as a bare name and never re-bound in the caller
+                            `~p`  the caller's parameter `p`, but `p` is assigned somewhere in the caller's body
+                            `<expr>` anything else (constant, expression, local variable)
+    A call that cannot be resolved statically (`*args`, `**kwargs`, a fingerprint method reached through something other
+    than `self.`, `getattr`, too many positional arguments, a parameter bound twice) is a TranslatorError."""
+    sigs, bodies = {}, {}
+    for rel in FILES:
+        tree = ast.parse((REPO / rel).read_text())
+        for node in tree.body:
+            if not isinstance(node, ast.ClassDef):
+                continue
+            for item in node.body:
+                if isinstance(item, (ast.FunctionDef, ast.AsyncFunctionDef)):
+                    a = item.args
+                    if a.vararg or a.kwarg or a.kwonlyargs or a.posonlyargs:
+                        raise TranslatorError(f'{node.name}.{item.name}: unexpected parameter kinds')
+                    names = [x.arg for x in a.args]
+                    if not names or names[0] != 'self':
+                        raise TranslatorError(f'{node.name}.{item.name}: first parameter is not self')
+                    names = names[1:]
+                    if item.name in sigs and sigs[item.name] != names:
+                        raise TranslatorError(f'{item.name}: defined twice with different parameters')
+                    if item.name in sigs and names:
+                        raise TranslatorError(f'{item.name}: a parameterised method is defined in two classes')
+                    sigs[item.name] = names
+                    bodies.setdefault(item.name, item)
+    calls, consumes = [], []
+    for meth, item in bodies.items():
+        params = sigs[meth]
+        rebound = set()
+        for c in ast.walk(item):
+            if isinstance(c, ast.Name) and isinstance(c.ctx, (ast.Store, ast.Del)) and c.id in params:
+                rebound.add(c.id)
+            elif isinstance(c, ast.arg) and c.arg in params and not any(c is x for x in item.args.args):
+                rebound.add(c.arg)   # shadowed by a lambda / nested def parameter
+            elif isinstance(c, (ast.Global, ast.Nonlocal)):
+                raise TranslatorError(f'{meth}: global/nonlocal statement')
+        forwarded_nodes = set()
+
+        def source(e):
+            if isinstance(e, ast.Name) and e.id in params:
+                forwarded_nodes.add(id(e))
+                return ('~' + e.id) if e.id in rebound else e.id
+            return '<expr>'
+        for c in ast.walk(item):
+            if isinstance(c, ast.Call):
+                f = c.func
+                if isinstance(f, ast.Name) and f.id in ('getattr', 'super', 'eval', 'exec', 'vars', 'locals'):
+                    raise TranslatorError(f'{meth}: call of `{f.id}` — the call graph cannot be resolved statically')
+                if isinstance(f, ast.Attribute) and f.attr in sigs and sigs[f.attr]:
+                    if not (isinstance(f.value, ast.Name) and f.value.id == 'self'):
+                        raise TranslatorError(f'{meth}: `{f.attr}` is called through something other than `self.`')
+                    callee = sigs[f.attr]
+                    if any(isinstance(x, ast.Starred) for x in c.args) or any(k.arg is None for k in c.keywords):
+                        raise TranslatorError(f'{meth}: `{f.attr}` is called with *args / **kwargs')
+                    if len(c.args) > len(callee):
+                        raise TranslatorError(f'{meth}: `{f.attr}` is called with too many positional arguments')
+                    binds = [(callee[i], source(e)) for i, e in enumerate(c.args)]
+                    for k in c.keywords:
+                        if k.arg not in callee:
+                            raise TranslatorError(f'{meth}: `{f.attr}` has no parameter `{k.arg}`')
+                        if any(q == k.arg for q, _ in binds):
+                            raise TranslatorError(f'{meth}: `{f.attr}` gets `{k.arg}` twice')
+                        binds.append((k.arg, source(k.value)))
+                    calls.append((meth, f.attr, binds))
+        # methods referenced but not called directly (aliasing) are not understood
+        called_funcs = {id(c.func) for c in ast.walk(item) if isinstance(c, ast.Call)}
+        for c in ast.walk(item):
+            if isinstance(c, ast.Attribute) and c.attr in sigs and sigs[c.attr] and id(c) not in called_funcs:
+                raise TranslatorError(f'{meth}: `{c.attr}` is referenced without being called (aliasing is not understood)')
+        used = []
+        for c in ast.walk(item):
+            if isinstance(c, ast.Name) and isinstance(c.ctx, ast.Load) and c.id in params and id(c) not in forwarded_nodes:
+                if c.id not in used:
+                    used.append(c.id)
+        consumes.append((meth, [q for q in params if q in used]))
+    return [(m, sigs[m]) for m in sigs], calls, consumes
+
+
 LIVE_ENTRY_POINTS = [('_atom_identifiers', None), ('_chains', (1, 3)), ('_fragments', (1, 3)), ('linear_hash_set', (1, 3, 2)),
                      ('linear_bit_set', (1, 3, 64, 2, 2)), ('linear_fingerprint', (1, 3, 64, 2, 2)), ('_morgan_hash_dict', (1, 3)),
                      ('morgan_hash_set', (1, 3)), ('morgan_bit_set', (1, 3, 64, 2)), ('morgan_fingerprint', (1, 3, 64, 2))]
@@ -212,6 +296,19 @@ def generate():
               '/-- default parameter values (method, [(parameter, value)]) -/',
               'def defaults : List (String × List (String × Int)) := [']
     lines.append(',\n'.join(f'  ({lean_str(m)}, [{", ".join(f"({lean_str(n)}, {v})" for n, v in vs)}])' for m, vs in defaults))
+    sigs, calls, consumes = collect_calls()
+    lines += [']', '', '/-- (method, parameter names without `self`) of every method of the three fingerprint files -/',
+              'def signatures : List (String × List String) := [']
+    lines.append(',\n'.join(f'  ({lean_str(m)}, [{", ".join(lean_str(q) for q in ps)}])' for m, ps in sigs))
+    lines += [']', '', '/-- every `self.<fingerprint method>(…)` call: (caller, callee, [(callee parameter, source)]); positional arguments are',
+              '    resolved through the callee signature; source = `p` (the caller\'s own never re-bound parameter `p` as a bare name),',
+              '    `~p` (parameter `p`, re-bound somewhere in the caller) or `<expr>` (anything else) -/',
+              'def calls : List (String × String × List (String × String)) := [']
+    lines.append(',\n'.join(f'  ({lean_str(a)}, {lean_str(b)}, [{", ".join(f"({lean_str(q)}, {lean_str(src)})" for q, src in bs)}])'
+                            for a, b, bs in calls))
+    lines += [']', '', '/-- (method, its parameters that the body reads anywhere other than as a bare argument of a call in `calls`) -/',
+              'def consumes : List (String × List String) := [']
+    lines.append(',\n'.join(f'  ({lean_str(m)}, [{", ".join(lean_str(q) for q in ps)}])' for m, ps in consumes))
     lines += [']', '', 'end ChythonModel.Gen.C17', '']
     write_if_changed(OUT, '\n'.join(lines))
     return OUT, methods, keep, defaults
